@@ -3,9 +3,17 @@ package cluster
 import (
 	"bytes"
 	"encoding/hex"
+	"encoding/json"
 	"fmt"
+	"time"
+
+	"github.com/corestario/kyber/pairing"
+	"github.com/corestario/kyber/pairing/bls12381"
+	"github.com/corestario/kyber/share"
+	"github.com/corestario/kyber/sign/tbls"
 
 	"github.com/lidofinance/dc4bc/client/types"
+	"github.com/lidofinance/dc4bc/fsm/types/requests"
 	"github.com/lidofinance/dc4bc/storage"
 )
 
@@ -24,6 +32,9 @@ func pickNT(w *World, tier string) (int, int) {
 
 func genPayload(w *World, label string) []byte {
 	var sz int
+	if w.Prop == "C03" && w.Tape.Choose(10, "emptyPayload?") == 0 {
+		return []byte{} // a zero-length file is a legitimate explicit payload
+	}
 	switch w.Tape.Choose(6, "plSizeClass") {
 	case 0:
 		sz = 1
@@ -278,6 +289,28 @@ func runSignScenario(w *World, tier string, prop string) (bool, interface{}) {
 		for _, i := range perm[:k] {
 			fast[i] = true
 		}
+		// C01: sometimes one of the answering participants contributes partial
+		// signatures that are well-formed but made with a wrong share (corrupted
+		// keyring, share of another ceremony): whatever a node then reconstructs,
+		// broadcasts or stores must still be valid - or nothing at all
+		faulty := -1
+		stepCap := 300 * n
+		if prop == "C01" && w.Tape.Bool(1, 4, "faultySigner") {
+			faulty = perm[w.Tape.Choose(k, "faultyWho")]
+			stepCap = 60 * n
+			w.Stats.Fault("faulty-partial-signatures")
+		}
+		for i, op := range c.Ops {
+			op.Tamper = nil
+			if i == faulty {
+				op.Tamper = func(o *types.Operation, result []byte) []byte {
+					if !o.IsSigningState() {
+						return result
+					}
+					return corruptPartialSigns(w, result)
+				}
+			}
+		}
 		before := len(c.Tr.Order)
 		d := genBatch(c, round, perm[w.Tape.Choose(n, "proposer")], b, prev, maxBaked)
 		// the proposal must reach the board before we can name the batch
@@ -308,7 +341,13 @@ func runSignScenario(w *World, tier string, prop string) (bool, interface{}) {
 		descs = append(descs, fmt.Sprintf("%s signers=%d rel=%d", d, k, relMode))
 		ok := c.L.RunUntil(func() bool {
 			return c.Tr.AllHaveBatch(bi, members) && c.AllInState(round, StIdle, members)
-		}, 300*n)
+		}, stepCap)
+		if faulty >= 0 && !ok {
+			// a batch poisoned by a faulty contribution may never complete; later batches are
+			// not the subject of C01
+			descs = append(descs, "stopped after a faulty contribution")
+			break
+		}
 		for _, em := range bi.Msgs {
 			if !em.Baked && em.Payload != nil {
 				prev = append(prev, em.Payload)
@@ -316,6 +355,12 @@ func runSignScenario(w *World, tier string, prop string) (bool, interface{}) {
 		}
 		if !ok && len(bi.Msgs) > 0 && prop == "C07" && !w.Failed() {
 			w.Fail(prop, "batch-not-reconstructed", fmt.Sprintf("batch #%d (%s), correctly answered by %d >= t=%d participants, is not stored by every node / round not idle (states %v)", b, d, len(bi.Answered), t, states(c, round)))
+		}
+		if prop == "C07" && w.Tape.Bool(1, 3, "clockJump") {
+			// "however late the remaining participants answer": days pass
+			d := []time.Duration{6 * time.Hour, 3 * 24 * time.Hour, 8 * 24 * time.Hour, 30 * 24 * time.Hour}[w.Tape.Choose(4, "jump")]
+			w.Advance(d)
+			w.Stats.Fault("clock-jump")
 		}
 		if prop == "C07" {
 			switch relMode {
@@ -361,6 +406,45 @@ func runSignScenario(w *World, tier string, prop string) (bool, interface{}) {
 		sample["store_entries_checked"] = po.entries
 	}
 	return so.seen > 0, sample
+}
+
+// corruptPartialSigns replaces every partial signature of a result by one made
+// with a random share value under the same index (valid encoding, wrong key).
+func corruptPartialSigns(w *World, result []byte) []byte {
+	var ro types.Operation
+	if json.Unmarshal(result, &ro) != nil || len(ro.ResultMsgs) != 1 {
+		return result
+	}
+	var req requests.SigningProposalBatchPartialSignRequests
+	if json.Unmarshal(ro.ResultMsgs[0].Data, &req) != nil {
+		return result
+	}
+	suite := bls12381.NewBLS12381Suite(nil).(pairing.Suite)
+	r := w.Tape.Sub(0xfa17)
+	for i := range req.PartialSigns {
+		ps := req.PartialSigns[i].Sign
+		if len(ps) < 2 {
+			continue
+		}
+		idx := int(ps[0])<<8 | int(ps[1])
+		v := suite.G1().Scalar().Pick(detStream{r})
+		// the payload is unknown here on purpose: sign the message id bytes - any well-formed G2 point under a wrong key will do
+		sg, err := tbls.Sign(suite, &share.PriShare{I: idx, V: v}, []byte(req.PartialSigns[i].MessageID))
+		if err == nil {
+			req.PartialSigns[i].Sign = sg
+		}
+	}
+	ro.ResultMsgs[0].Data, _ = json.Marshal(req)
+	out, _ := json.Marshal(ro)
+	return out
+}
+
+type detStream struct{ r interface{ Next() uint64 } }
+
+func (d detStream) XORKeyStream(dst, src []byte) {
+	for i := range dst {
+		dst[i] = src[i] ^ byte(d.r.Next())
+	}
 }
 
 func permOf(w *World, n int) []int {
